@@ -342,7 +342,10 @@ class CSSSerializer(object):
         if self.prefs.defaultAtKeyword:
             return rule.atkeyword  # default
         else:
-            return rule._keyword
+            # only rules that were read from text with their own keyword
+            # (@import, @namespace, margin and unknown rules) carry the
+            # literal form; every other rule has just the default one
+            return getattr(rule, '_keyword', None) or rule.atkeyword
 
     def _indentblock(self, text, level):
         """
